@@ -232,6 +232,14 @@ def _do(c, op, ctx):
         return fp(c.pop(vals.dec(op['k'])))
     if name == 'items':
         return fp([(fp(k), fp(v)) for k, v in c.items()])
+    # Averager
+    if name == 'avg_add':
+        c.add(vals.dec(op['v']))
+        return 'None'
+    if name == 'avg_get':
+        return fp(c.get())
+    if name == 'avg_pop':
+        return fp(c.pop())
     raise ValueError('unknown op %r' % (name,))
 
 
